@@ -2,6 +2,9 @@
 use vcommon::Args;
 
 mod c10;
+mod c11;
+mod c13;
+mod c14;
 mod c26;
 mod c27;
 
@@ -11,6 +14,9 @@ fn main() {
     match args.stage.as_str() {
         "c10_chains" => c10::chains(&args),
         "c10_lattice" => c10::lattice(&args),
+        "c11" => c11::run(&args),
+        "c13" => c13::run(&args),
+        "c14" => c14::run(&args),
         "c26_rt" => c26::roundtrip(&args),
         "c26_hostile" => c26::hostile(&args),
         "c27_exh" => c27::exhaustive(&args),
